@@ -522,6 +522,18 @@ def run(ctx):
                        "how_to_replay": "bin/check C20 --replay <this file>  (harness/lifetime.c exec, asanonly build, "
                                         "--wrap=malloc,calloc,realloc,free)"},
                       signature=sig, what=(j[2] if j else text) + " — " + small, tag=kind)
+    # re-entrant destroy callbacks (oracle only; the model's callback is a pure observer): harness/lifetime.c run_reentrant
+    try:
+        rr = subprocess.run([str(exe), "reentrant"], capture_output=True, text=True, timeout=60, env=dict(os.environ, ASAN_OPTIONS="detect_leaks=0:abort_on_error=0"))
+        rtext = (rr.stdout + rr.stderr).strip()
+    except subprocess.TimeoutExpired:
+        rr, rtext = None, "timeout (60 s)"
+    ctx.cov["evaluations"] += 14
+    ctx.extra["reentrant_destroy_scenarios"] = "14 (callback detaches / replaces the alpha map, sets transform, filter, clip on the dying image) — " + (rtext.splitlines()[-1] if rtext else "no output")
+    if rr is None or rr.returncode != 0 or "reentrant ok" not in rtext:
+        ctx.violation({"kind": "reentrant-destroy", "request": "lifetime reentrant", "observed": rtext[-1500:],
+                       "how_to_replay": "<scratch>/lifetime reentrant (harness/lifetime.c run_reentrant, asanonly build, --wrap=malloc,calloc,realloc,free)"},
+                      signature="oracle|reentrant-destroy", what="destroy callback that modifies the dying image: " + (rtext.splitlines()[0] if rtext else "crash"), tag="reentrant")
     if broken and not ctx.violations:
         ctx.broken_obligations_verdict(broken, "lifetime histories (corpus + exhaustive small scope + generated) found no failing input")
     ctx.assumptions += [
